@@ -53,6 +53,9 @@ M = [
  ("G2e pg dropTable reverse / addTable: enum columns of a replayed table keep their own schema (typeIdent prefers ns over the empty qualifier)", [
    (PG, "\tcase s.SchemaQualifier != nil:\n\t\tif *s.SchemaQualifier != \"\" {\n\t\t\treturn fmt.Sprintf(\"%q.%q\", *s.SchemaQualifier, name)\n\t\t}",
         "\tcase s.SchemaQualifier != nil && *s.SchemaQualifier != \"\":\n\t\treturn fmt.Sprintf(\"%q.%q\", *s.SchemaQualifier, name)")]),
+ ("G2h CheckChangesScope: the requested custom qualifier is counted as a schema name", [
+   ("sql/internal/sqlx/plan.go", "\tnames := make(map[string]struct{})\n\tfor _, c := range changes {\n\t\tvar t *schema.Table",
+    "\tnames := make(map[string]struct{})\n\tif q := V(opts.SchemaQualifier); q != \"\" {\n\t\tnames[q] = struct{}{}\n\t}\n\tfor _, c := range changes {\n\t\tvar t *schema.Table")]),
  ("G2g HARMLESS Planner.plan: the two copies are made one after the other and the name is assigned unconditionally", [
    (MIG, "\t\t\ts1, s2 := *current.Schemas[0], *desired.Schemas[0]\n\t\t\t// Avoid comparing schema names when scope is limited to one schema,\n\t\t\t// and the schema qualifier is controlled by the caller.\n\t\t\tif s1.Name != s2.Name {\n\t\t\t\ts1.Name = s2.Name\n\t\t\t}",
          "\t\t\ts2 := *desired.Schemas[0]\n\t\t\ts1 := *current.Schemas[0]\n\t\t\t// Avoid comparing schema names when scope is limited to one schema,\n\t\t\t// and the schema qualifier is controlled by the caller.\n\t\t\ts1.Name = s2.Name")]),
